@@ -35,7 +35,10 @@ class IkeSaController:
         return next(x for x in self.ike_sas if x.my_spi == spi)
 
     def _get_ike_sa_by_peer_addr(self, peer_addr):
-        return next(x for x in self.ike_sas if x.peer_addr == peer_addr)
+        # only an IKE_SA that is (or is about to be) usable for new exchanges: not a half-open responder one, which may
+        # never complete, nor one that has been rekeyed or deleted
+        return next(x for x in self.ike_sas if x.peer_addr == peer_addr and x.state < IkeSa.State.REKEYED
+                    and (x.is_initiator or x.state >= IkeSa.State.ESTABLISHED))
 
     def _get_ike_sa_by_child_sa_spi(self, spi):
         for ike_sa in self.ike_sas:
